@@ -27,6 +27,13 @@ impl Deduplicator {
         }
     }
 
+    /// Marks witnesses that are written outside the op list (private inputs), so that a
+    /// duplicate op whose output is aliased to one of them is kept as a constraint.
+    pub(super) fn with_external_writes(mut self, ids: &[WitnessId]) -> Self {
+        self.written.extend(ids.iter().copied());
+        self
+    }
+
     /// Consumes the op list and returns deduplicated ops + the rewrite map.
     pub(super) fn run<F: Field>(
         mut self,
